@@ -45,6 +45,7 @@ def run(tier, seed):
     cx.cov["sign_patterns_covered"] = len(seen_pat)
     cx.assumptions += ["magnitudes are sampled (one random on-shell point per pattern and repetition)",
                        "TLC evaluates relative 1e-9 closeness exactly (Dyadic.tla)"]
+    cx.selftest_corruption("Trace_C06.tla", shards[0], lambda ev: ev["res"]["amu2LChipmPhotonic"] if ev["e"] == "Eval" and ev["role"] == "flip" and ev["exc"] == "" else None, "FlipInvariant")
     return cx.finish(rule="sign patterns enumerated by TLC (Cases.tla: C06Cases, 2^13; quick: seeded subset of 768), "
                           "each concretised with random magnitudes; a case = (pattern, repetition) pair of models "
                           "orig/flipped; non-trivial = both spectra calculated without exception",
